@@ -7,7 +7,7 @@ import re
 from . import model, sig
 
 T0 = 1_600_000_000  # base mtime (seconds)
-FILE_NAMES = ["a.txt", "b.dat", "x_excl.log"]
+FILE_NAMES = ["a.txt", "b.dat", "x_excl.log", "data.txt"]  # "data.txt" holds, but does not start with, "a.txt"
 SUB = "sub"
 CONTENTS = ["alpha", "bravo", "ALPHA", "", "charlie-long-content"]
 
